@@ -6,6 +6,7 @@ CONSTANTS
   AtomicFire = TRUE
   Go123 = FALSE
   Misuse = TRUE
+  PutOnlyStopped = FALSE
 SPECIFICATION Spec
 INVARIANTS NoTrap
 
